@@ -30,8 +30,10 @@ impl<'t, D: Doc> ScanResultInner<'t, D> {
       .into_iter()
       .map(|(idx, nm)| (combined.get_rule(idx), nm))
       .collect();
-    let mut matches: Vec<_> = self
-      .matches
+    // report rules in the order they are scanned, not in the map's hash order
+    let mut matches: Vec<_> = self.matches.into_iter().collect();
+    matches.sort_unstable_by_key(|(idx, _)| *idx);
+    let mut matches: Vec<_> = matches
       .into_iter()
       .map(|(idx, nms)| (combined.get_rule(idx), nms))
       .collect();
